@@ -126,3 +126,53 @@ Proof.
   apply (soc_ds_offset_op w0 w1 (sc_eta sc) z0 z1 d0 d1 y0 y1 y0 y1 Hn); try lia; try lra.
   destruct Hz as [Hz0 Hz]. lra.
 Qed.
+
+(** ** set_identity_scaling *)
+Lemma rdot_zeros_l k : forall x, rdot (repeat 0 k) x = 0.
+Proof. induction k as [|k IH]; intros [|xi x]; cbn; try lra. rewrite IH. lra. Qed.
+Lemma rsumsq_zeros k : rsumsq (repeat 0 k) = 0.
+Proof. apply rdot_zeros_l. Qed.
+Lemma lin2_zeros a b : forall x k, length x = k -> a = 1 -> lin2 a x b (repeat 0 k) = x.
+Proof.
+  induction x as [|xi x IH]; intros k H Ha; subst k; [reflexivity|].
+  cbn [length repeat]. unfold lin2, map2 in *. cbn [combine map fst snd].
+  rewrite (IH (length x) eq_refl Ha). subst a. f_equal. ring.
+Qed.
+Lemma sparse_tail_id e c1 c2 : forall x, e = 1 ->
+  rmap2 Rplus (rmap2 Rmult (repeat e (length x)) x)
+        (rmap2 (fun ui vi => e * (c1 * ui - c2 * vi)) (repeat 0 (length x)) (repeat 0 (length x))) = x.
+Proof.
+  induction x as [|xi x IH]; intros He; [reflexivity|].
+  cbn [length repeat]. unfold rmap2, map2 in *. cbn [combine map fst snd]. rewrite (IH He).
+  subst e. f_equal. ring.
+Qed.
+
+Lemma soc_identity_scaling_ok : stmt_soc_identity_scaling.
+Proof.
+  intros prev [|x0 x1] [|y0 y1] Hn Hw Hy; cbn in Hn, Hy; try lia; try discriminate.
+  cbn zeta. unfold soc_set_identity_scaling. rewrite <- Hw. cbn [length sc_w sc_eta sc_sparse].
+  cbn [one zero OpsR]. set (k := length x1).
+  assert (Hy1 : length y1 = k) by (unfold k; lia).
+  assert (Hnorm : soc_normalised (1 :: repeat 0 k)).
+  { cbn [soc_normalised]. rewrite rsumsq_zeros. lra. }
+  assert (HW : forall b0 b1, length b1 = k -> soc_mul_W OpsR (1 :: repeat 0 k) 1 (x0 :: x1) 1 0 (b0 :: b1) = x0 :: x1).
+  { intros b0 b1 Hb. rewrite soc_mul_W_R by (rewrite repeat_length; auto).
+    rewrite rdot_zeros_l. f_equal; [ring|]. apply lin2_zeros; reflexivity. }
+  split; [exact Hnorm|]. split; [reflexivity|]. split; [apply HW; exact Hy1|]. split.
+  - rewrite soc_mul_Winv_R by (rewrite repeat_length; auto).
+    rewrite rdot_zeros_l. f_equal; [field|]. apply lin2_zeros; [reflexivity | field].
+  - split.
+    + rewrite <- (soc_Hs_is_WW_ok (1 :: repeat 0 k) 1 (x0 :: x1) (y0 :: y1) (y0 :: y1) Hnorm)
+        by (cbn [length]; rewrite repeat_length; unfold k; lia).
+      rewrite HW by exact Hy1. apply HW. exact Hy1.
+    + intros sp Hsp. destruct (sc_sparse prev); [|discriminate]. inversion Hsp; subst sp; clear Hsp.
+      cbn [sp_u sp_v sp_d]. unfold soc_get_Hs_sparse. cbn [mul div one OpsR Ops.sqrt]. rewrite ?two_R.
+      unfold sparse_op. cbn [repeat rdot]. rewrite !rdot_zeros_l.
+      unfold rmap2 at 1 2 3, map2. cbn [combine map fst snd]. f_equal.
+      * assert (Q : R_sqrt.sqrt (1 / 2) * R_sqrt.sqrt (1 / 2) = 1 / 2) by (apply sqrt_sqrt; lra).
+        set (q := R_sqrt.sqrt (1 / 2)) in *.
+        replace (1 * 1 * (1 / 2) * x0 + 1 * 1 * ((q * x0 + 0) * q - (0 * x0 + 0) * 0))
+          with ((1 / 2) * x0 + (q * q) * x0) by ring.
+        rewrite Q. lra.
+      * fold k. apply (sparse_tail_id (1 * 1) _ _ x1). ring.
+Qed.
